@@ -575,13 +575,17 @@ def elliptic_case(draw):
 
 
 @st.composite
-def fix_case(draw, unit_strategy):
+def fix_case(draw, unit_strategy, factors=False):
     n = draw(st.sampled_from([2, 3, 4]))
     shape = draw(st.sampled_from([[], [], [], [2]]))
     units = [draw(unit_strategy(n)) for _ in range(gen.prod(shape))]
-    return dict(n=n, shape=shape, units=units,
-                via=draw(st.sampled_from(["matrix", "compose", "compose_queried",
-                                          "reassigned"])))
+    d = dict(n=n, shape=shape, units=units,
+             via=draw(st.sampled_from(["matrix", "compose", "compose_queried",
+                                       "reassigned"])))
+    if factors:
+        # the matrix of a projective map is given up to a non-zero factor, per unit
+        d["mfac"] = [draw(st.sampled_from([1.0, 1.0, -1.0, -2.5, 0.4])) for _ in units]
+    return d
 
 
 def elliptic_T0(n, u):
@@ -630,7 +634,9 @@ def conjugate(case, T0s, Cs):
             Cc.set(np.array(T.matrix).copy())
             return Cc
         return T
-    mats = [C @ np.array(T0.matrix).T @ np.linalg.inv(C) for T0, C in zip(T0s, Cs)]
+    fac = case.get("mfac") or [1.0] * len(T0s)
+    mats = [f * (C @ np.array(T0.matrix).T @ np.linalg.inv(C))
+            for T0, C, f in zip(T0s, Cs, fac)]
     data = np.array(mats).reshape(shape + (n + 1, n + 1))
     return Isometry(data.copy(), column_vectors=True)
 
@@ -759,12 +765,33 @@ def body_fix_loxodromic(case, ctx):
     Cs = [harness_iso(u["C"]) for u in case["units"]]
     label_case(ctx, case, [u["C"] for u in case["units"]], ["via=" + case["via"]])
     T = conjugate(case, T0s, Cs)
+    if case["via"] == "matrix" and any(f < 0 for f in case.get("mfac") or []):
+        ctx.label("matrix-with-negative-factor")
     pair = T.fixed_point_pair()
     ctx.check(isinstance(pair, hyperbolic.PointPair), "fixed_point_pair returns a PointPair",
               got=type(pair).__name__)
     Pd = np.array(pair.proj_data)
     ctx.check(Pd.shape == shape + (2, n + 1), "pair shape", got=Pd.shape)
     F1 = np.array(T.fixed_point().proj_data)
+    # the two ends taken apart, and read in the ball model: the attracting ones, then the
+    # repelling ones, on the unit sphere (in the closed ball)
+    raw_first, raw_second = pair.get_end_pair()
+    ctx.close("get_end_pair(): arrays of the first / second ends",
+              np.stack([np.asarray(raw_first), np.asarray(raw_second)], axis=-2), Pd, rtol=0,
+              atol=0)
+    e_first, e_second = pair.get_end_pair(as_points=True)
+    ctx.close("get_end_pair(): first ends", np.array(e_first.proj_data), Pd[..., 0, :], rtol=0,
+              atol=0)
+    ctx.close("get_end_pair(): second ends", np.array(e_second.proj_data), Pd[..., 1, :],
+              rtol=0, atol=0)
+    for nm_, pt_ in (("attracting", e_first), ("repelling", e_second),
+                     ("fixed_point()", T.fixed_point())):
+        pc = np.array(pt_.coords("poincare"), dtype=float)
+        kc_ = np.array(pt_.coords("klein"), dtype=float)
+        ctx.check(pc.shape == shape + (n,) and np.all(np.isfinite(pc)),
+                  "Poincare coordinates of the %s point are finite" % nm_, got=pc)
+        ctx.small("the %s point read in the Poincare model is its Klein point (both on the "
+                  "unit sphere)" % nm_, pc - kc_, 1e-6)
     ax = T.axis()
     ctx.check(isinstance(ax, hyperbolic.Geodesic), "axis returns a Geodesic",
               got=type(ax).__name__)
@@ -1091,7 +1118,8 @@ LAWS = [
         thorough=2800, shards=(1, 4)),
     Law("fixed_points_elliptic", elliptic_case(), body_fix_elliptic, nt_conj,
         quick=400, thorough=4000, shards=(2, 8)),
-    Law("fixed_points_loxodromic", fix_case(lox_unit), body_fix_loxodromic, nt_conj,
+    Law("fixed_points_loxodromic", fix_case(lox_unit, factors=True), body_fix_loxodromic,
+        nt_conj,
         quick=300, thorough=2800, shards=(2, 6)),
     Law("fixed_points_parabolic", fix_case(par_unit), body_fix_parabolic, nt_conj,
         quick=400, thorough=2800, shards=(1, 4)),
